@@ -150,3 +150,17 @@ Definition mk_tables (sp_rows concat varargs minus equal longstring : list N) : 
                     | PEqual => lookup equal
                     | PLongString => lookup longstring
                     end |}.
+
+(** * the intended token sequence
+
+    [canon items]: the pushed texts with a new line at every place where dense.rs lets the
+    automaton put a separator (before every push that is not raw / merged); raw pushes are
+    glued, as dense.rs glues them.  The token sequence of [canon items] is what the
+    generator means to write, independently of the tables and of the column span. *)
+Definition canon_item (it : item) : bytes :=
+  match imode it with
+  | MStr | MBreak _ => 10 :: itext it
+  | MRaw | MNlRaw _ | MMerge => itext it
+  | MSpace => [32]
+  end.
+Definition canon (items : list item) : bytes := flat_map canon_item items.
